@@ -512,6 +512,10 @@ def rb_merges(cx, schs):
         cx.fail("sib", "red-black nodes / lyds_tree metadata leaked by bulk moves (lyds_merge)", {"reply": a, "attrib": None})
 
 
+def rbd_tok(d):
+    return ("D" + ",".join(d[1:])) if d and d[0] == "D" else ",".join(d)
+
+
 def rb_destruct_merges(cx, schs):
     """lyd_merge_siblings(…, LYD_MERGE_DESTRUCT) of two containers whose system-ordered leaf-lists were built by insert/unlink
     scripts: the source tree goes to the lyds pool (lyds_pool_add), the instances the target lacks are moved by lyds_insert2
@@ -537,7 +541,23 @@ def rb_destruct_merges(cx, schs):
     for _ in range(cx.n(400, 5000)):
         dom = rng.choice([4, 10, 40, 1000])
         cases.append(("random", rnd_script(rng.choice([0, 1, 2, 3, 6, 12, 25]), dom), rnd_script(rng.choice([1, 2, 3, 6, 12, 25]), dom)))
-    lines = ["%d sib rbd c %s %s %s %s" % (i, sch.desc_tok, sch.yang_tok, ",".join(d) or "-", ",".join(s_) or "-") for i, (_, d, s_) in enumerate(cases)]
+    # the target has NO sorting tree (a duplicate: as after lyd_dup_* or a parse with LYD_PARSE_ORDERED) and is LONGER than the
+    # source: the pool of K recycled red-black nodes runs out while lyds_additionally_reuse_rb_tree rebuilds the tree, the
+    # (K+1)-th target instance gets a fresh node (lyds_additionally_create_rb_nodes); new values land in every gap, in
+    # particular between the (K+1)-th and the (K+2)-th instance
+    for k in range(1, 6):                    # K = size of the source list = pool size
+        for n in range(k, k + 4):            # target length K .. K+3
+            trg = [10 * (j + 1) for j in range(n)]
+            for gap in range(0, n + 1):      # a new value in front of / between / behind
+                newv = [10 * gap + 5]
+                rest = [10 * (n + 2 + j) + 5 for j in range(k - 1)] if gap % 2 == 0 else [10 * g + 3 for g in range(k - 1)]
+                src = newv + rest
+                order = rng.sample(src, len(src))
+                cases.append(("notree-longer", ["D"] + ["i%d" % v for v in rng.sample(trg, n)], ["i%d" % v for v in order]))
+    for _ in range(cx.n(200, 3000)):
+        dom = rng.choice([10, 40, 1000])
+        cases.append(("notree-random", ["D"] + rnd_script(rng.choice([1, 2, 3, 6, 12, 25]), dom), rnd_script(rng.choice([1, 2, 3, 6, 12]), dom)))
+    lines = ["%d sib rbd c %s %s %s %s" % (i, sch.desc_tok, sch.yang_tok, rbd_tok(d) or "-", ",".join(s_) or "-") for i, (_, d, s_) in enumerate(cases)]
     lines.append("%d sib rbleak" % len(cases))
     ri = cx.run_impl(WB, lines, component="sib")
     rm = cx.run_model(lines)
